@@ -136,8 +136,10 @@ def judge_against_spec(case, out, prog):
         vio.append({"what": "scan_count differs from the number of lines offered", "got": out["scan_count"], "want": sp.scan_count})
     if out["flags"]["valid"] != sp.valid:
         vio.append({"what": "validity verdict", "got": out["flags"]["valid"], "want": sp.valid})
-    rv = num_canon(real_vars(out["variables"]))
-    sv = num_canon(sp.vars)
+    # a stack that exists but is empty is not told apart from one that was never created (peek/pop/stack on an unknown name create
+    # it as a by-product, also when an enclosing and()/or() would not need the value)
+    rv = {k: v for k, v in num_canon(real_vars(out["variables"])).items() if v != []}
+    sv = {k: v for k, v in num_canon(sp.vars).items() if v != []}
     if rv != sv:
         vio.append({"what": "variables differ from the values the csvpath assigns", "got": rv, "want": sv})
     rp = [e[1] for e in out["printouts"]]
